@@ -61,7 +61,9 @@ fn gen_template(u: &mut Choices) -> Tmpl {
         }
         let nr = u.range(1, 3);
         for _ in 0..nr {
-            let name = format!("res{}", idx);
+            // logical ids in no relation to the types: resources of one type are neither adjacent
+            // in the order of the ids nor (half of the time) in the document
+            let name = format!("{}{}", *u.pick(&["res", "Alpha", "zeta", "M", "b", "Res"]), idx);
             idx += 1;
             let mut r = vec![("Type".to_string(), V::s(ty))];
             if !keys.is_empty() {
@@ -80,6 +82,12 @@ fn gen_template(u: &mut Choices) -> Tmpl {
         }
         if !keys.is_empty() {
             types_with_props.push(ty.to_string());
+        }
+    }
+    if u.chance(1, 2) {
+        for i in (1..res.len()).rev() {
+            let j = u.below(i + 1);
+            res.swap(i, j);
         }
     }
     let hard_strings = scalars.iter().any(|(_, _, _, v)| matches!(v, V::Str(s) if s.trim() != s || s.contains('"') || s.ends_with('\\')));
